@@ -83,6 +83,17 @@ def generate(rng, tier):
             ops = [(rng.choice(kinds), v) for v in chunk]
             side = [rng.choice(SIDE_OPS) if rng.random() < 0.3 else None for _ in chunk]
             yield make_case(tt, ops, side)
+    # compounds with a mapped member: shadow attribute + post_setattr chain are outside the Lean model;
+    # run on the implementation + oracle only (shadow = map[value] for keys, identity otherwise)
+    mapped_members = ["(Map ((s yes) (i 1)) ((s no) (i 0)))", "(MapH ((s yes) (i 1)))", "(PrefixMap (yes (i 1)) (no (i 0)))"]
+    for _ in range(ncomp // 10):
+        other = [V.random_trait(rng, 0, mapped=False) for _ in range(rng.randint(1, 2))]
+        other = [o for o in other if o != "Any" and "Instance (u 2) 1 2" not in o] or ["Int"]
+        alts = other + [rng.choice(mapped_members)]
+        rng.shuffle(alts)
+        tt = "(Either 0 %s)" % " ".join(alts) if rng.random() < 0.7 else "(CompoundH %s)" % " ".join(alts)
+        vals = [rng.choice(["(s yes)", "(s no)", "(s y)", "(ss yes)", rng.choice(L), rng.choice(L)]) for _ in range(rng.randint(2, 5))]
+        yield "#" + make_case(tt, [(rng.choice(kinds), v) for v in vals])
     for _ in range(ncomp):
         tt = V.random_trait(rng, rng.randint(1, depth), mapped=False)
         ops = [(rng.choice(kinds), V.random_value_for(rng, tt, L)) for _ in range(rng.randint(2, 6))]
@@ -432,13 +443,24 @@ def judge_stored(t, value, stored, ctx, obj, where):
 def mapped_ref(t, w, ctx):
     if isinstance(t, list) and t[0] == "Base":
         return mapped_ref(t[1], w, ctx)
+    if isinstance(t, list) and t[0] in ("Either", "CompoundH") and has_mapped_member(t):
+        # a compound with a mapped member is mapped: the first mapped member that knows the value
+        # maps it, a nested mapped compound decides for itself, otherwise the identity mapping
+        for m in (t[2:] if t[0] == "Either" else t[1:]):
+            if isinstance(m, list) and m[0] in ("Either", "CompoundH") and has_mapped_member(m):
+                return mapped_ref(m, w, ctx)
+            if isinstance(m, list) and m[0] in ("Map", "MapH", "PrefixMap") and hashable(w):
+                ok, mv = mapped_ref(m, w, ctx)
+                if ok:
+                    return True, mv
+        return True, w
     if isinstance(t, list) and t[0] in ("Map", "MapH"):
         for k, v in t[1:]:
             if safe_eq(V.build_value(k, ctx), w):
                 return True, V.build_value(v, ctx)
     if isinstance(t, list) and t[0] == "PrefixMap":
         for k, v in t[1:]:
-            if V.dec(k) == str(w):
+            if isinstance(w, str) and V.dec(k) == str(w):
                 return True, V.build_value(v, ctx)
     return False, None
 
@@ -496,6 +518,7 @@ def run_impl(case):
     names = set(terms) | set(n + "_" for n in terms)
     obj = A()
     outs, hits, tags = [], [], set()
+    shadow_spoilt = False
     for op in [o for o in b.split(";") if o.strip()]:
         k, name, vs = op.strip().split(" ", 2)
         vterm = V.parse_sexp(vs)
@@ -526,12 +549,16 @@ def run_impl(case):
             tags.add("res:" + en)
             # ---- oracle: a failed assignment has no effect at all
             after = obj.__dict__
+            if isinstance(t, list) and t[0] in ("Either", "CompoundH") and has_mapped_member(t) and en in ("KeyError", "TypeError") \
+                    and en not in protocol_exceptions(vterm, set()):
+                # (F46) the exception of an unguarded self.map[value] in Map/PrefixMap.post_setattr; the dict
+                # entry (or the default) is already written, so the rest of this history is not judged for shadows
+                hits.append(_hit("mapped-compound-post-setattr-raises", where + ": raised %s after the value (or the default) "
+                                 "was stored: Map.post_setattr looks the value up without guarding" % en))
+                outs.append("exc " + en)
+                shadow_spoilt = True
+                continue
             if set(after) != set(before) or any(after[x] is not before[x] for x in before):
-                if isinstance(t, list) and t[0] in ("Either", "CompoundH") and has_mapped_member(t) and en in ("KeyError", "TypeError"):
-                    hits.append(_hit("mapped-compound-post-setattr-raises", where + ": raised %s after the value (or the default) "
-                                     "was stored: Map.post_setattr looks the value up without guarding" % en))
-                    outs.append("exc " + en)
-                    continue
                 hits.append(_hit("failed-assignment-had-effect:%s:%s" % (hd, en), where + ": raised %s but the object changed" % en))
             if en == "TraitError":
                 if ("'%s'" % name) not in str(exc):
@@ -562,7 +589,7 @@ def run_impl(case):
             if getattr(obj, name) is not stored:
                 hits.append(_hit("readable-is-not-stored:%s" % hd, where))
             ok, mv = mapped_ref(t, stored, ctx)
-            if ok and not ((name + "_") in d and same(d[name + "_"], mv, ctx)):
+            if ok and not shadow_spoilt and not ((name + "_") in d and same(d[name + "_"], mv, ctx)):
                 hits.append(_hit("shadow-is-not-map-of-value:%s" % hd, where + ": shadow %s" % (
                     V.show_value(d.get(name + "_"), ctx) if (name + "_") in d else "missing")))
         # ---- oracle: no other attribute changed
